@@ -176,6 +176,23 @@ func (in *inst) step(c *vt.Ctx, o fsx.Op) *vt.Deviation {
 	return nil
 }
 
+// parity: path helpers and accessors through the read-only file system answer as the base does.
+func (in *inst) parity() *vt.Deviation {
+	a, ok1 := in.ro.(avfs.VFS)
+	b, ok2 := in.cmp.(avfs.VFS)
+	if !ok1 || !ok2 {
+		return nil
+	}
+	if diff := fsx.LexicalParity(a, b, parityStrs); diff != "" {
+		d := vt.Dev("prop", "C09", "fs", in.kind, "op", "helpers", "clause", "read-differs")
+		d.Detail = fmt.Sprintf("RoFS(%s) %s", in.kind, diff)
+		return d
+	}
+	return nil
+}
+
+var parityStrs = []string{"", ".", "..", "a", "/w/a", "../x", "/", "a/b/../c", "[a", "*", "/w//a/", "w"}
+
 func (in *inst) close() {
 	in.rro.CloseAll()
 	in.rcmp.CloseAll()
@@ -338,6 +355,9 @@ func TestCheck(t *testing.T) {
 						okRead = true
 					}
 				}
+			}
+			if dev := in.parity(); dev != nil {
+				return &vt.Failure{Dev: dev, Replay: cs}
 			}
 			if indirectMut && okRead {
 				parts := []string{kind, view, name}
